@@ -1,7 +1,7 @@
 #!/bin/bash
 # runs every registered check (quick by default) and summarises
 tier=${1:-quick}
-cd /verif
+cd "$(dirname "$0")/.."
 for p in C01 C02 C03 C04 C05 C06 C07 C08 C09 C10 C11 C12 C13 C14 C15 C16 C17 C18 C19 C20; do
   s=$(date +%s); ./check $p --tier $tier > work/all_$p.log 2>&1; rc=$?; e=$(date +%s)
   echo "$p rc=$rc $((e-s))s $(grep -c '^VIOLATION' work/all_$p.log) violations $(grep -c '^KNOWN-FINDING:' work/all_$p.log) known | $(tail -1 work/all_$p.log | cut -c1-160)"
